@@ -34,7 +34,9 @@ pub struct RandomChoices<Random> {
 impl<Random> Default for RandomChoices<Random> {
     fn default() -> Self {
         Self {
-            map: Default::default(),
+            // fixed hasher keys: the iteration order (the order of the `SelectRandom` actions)
+            // depends only on the contents
+            map: HashableHashMap::with_hasher(crate::stable::build_hasher()),
         }
     }
 }
@@ -51,13 +53,11 @@ impl<Random> RandomChoices<Random> {
 
 impl<Random: Rewrite<Id>> Rewrite<Id> for RandomChoices<Random> {
     fn rewrite<S>(&self, plan: &RewritePlan<Id, S>) -> Self {
-        Self {
-            map: self
-                .map
-                .iter()
-                .map(|(k, v)| (k.clone(), v.iter().map(|r| r.rewrite(plan)).collect()))
-                .collect::<HashableHashMap<_, _, _>>(),
+        let mut map = HashableHashMap::with_hasher(crate::stable::build_hasher());
+        for (k, v) in self.map.iter() {
+            map.insert(k.clone(), v.iter().map(|r| r.rewrite(plan)).collect());
         }
+        Self { map }
     }
 }
 
